@@ -214,6 +214,12 @@ func exec(c *hx.Ctx, line string) string {
 		if allocated > uint64(2*remaining+64) {
 			a = 1
 		}
+		if allocated > 1<<20 {
+			// GC is off: give a large allocation back at once, otherwise a few hostile prefixes exhaust the address space
+			res = result{}
+			runtime.GC()
+			debug.FreeOSMemory()
+		}
 		out = append(out, fmt.Sprintf("%s p=%d l=%d a=%d", o, s.Position(), s.Len(), a))
 	}
 	return strings.Join(out, " ; ")
